@@ -11,14 +11,17 @@ if [ ! -x $CLEAN/compiler ]; then
 fi
 for id in "$@"; do
  for s in SEED1 SEED2; do
-  W=/tmp/seed-$id; D=$W/$s
+  W=${SEED_PREFIX:-/tmp/seed-}$id; D=$W/$s
   [ -f $D/patch.diff ] || continue
   cd $W || continue
   git checkout -q -- . ; git apply $D/patch.diff || { echo "$id $s: patch does not apply"; continue; }
   CARGO_TARGET_DIR=$W/target cargo test --workspace --no-fail-fast --offline 2>&1 | grep -E "^test .* (ok|FAILED)$" | sort > $D/tests.txt
   CARGO_TARGET_DIR=$W/target cargo build -q --offline -p compiler --bin compiler 2>/dev/null
   demo=$D/demo/main.gom
-  if [ -f $D/demo/run.sh ]; then
+  if [ -f $D/run.sh ] && [ ! -f $D/demo/run.sh ]; then
+    ( cd $D; ulimit -v 4000000; timeout 120 sh run.sh $CLEAN/compiler > $D/before.txt 2>&1; echo "exit=$?" >> $D/before.txt )
+    ( cd $D; ulimit -v 4000000; timeout 120 sh run.sh $W/target/debug/compiler > $D/after.txt 2>&1; echo "exit=$?" >> $D/after.txt )
+  elif [ -f $D/demo/run.sh ]; then
     ( cd $D/demo; ulimit -v 4000000; timeout 120 sh run.sh $CLEAN/compiler > $D/before.txt 2>&1; echo "exit=$?" >> $D/before.txt )
     ( cd $D/demo; ulimit -v 4000000; timeout 120 sh run.sh $W/target/debug/compiler > $D/after.txt 2>&1; echo "exit=$?" >> $D/after.txt )
   else
